@@ -514,7 +514,11 @@ func (e *Eff) exportRet(st *effFn, vals pset, dst pset) bool {
 }
 
 // instantiate maps a callee path to caller paths.
-func (e *Eff) instantiate(st *effFn, path string, args []pset, fnVal pset, siteName string) pset {
+// instantiate maps a callee path to caller paths.  As a location (a Mut entry, the key of a heap edge) the path names
+// the memory that is written; as a referent (a value in Ret or on the right of a heap edge) it names the object the
+// path refers to.  Between two elements the caller's heap is consulted: a field of an object that is fresh in the
+// caller holds whatever the caller stored there.
+func (e *Eff) instantiate(st *effFn, path string, args []pset, fnVal pset, siteName string, referent bool) pset {
 	r := pset{}
 	root := rootOf(path)
 	elems := pathElems(path)
@@ -554,7 +558,10 @@ func (e *Eff) instantiate(st *effFn, path string, args []pset, fnVal pset, siteN
 		}
 	}
 	cur := base
-	for _, el := range elems {
+	for i, el := range elems {
+		if i > 0 {
+			cur = st.load(cur)
+		}
 		if el == "*" {
 			n := pset{}
 			for k := range cur {
@@ -568,6 +575,9 @@ func (e *Eff) instantiate(st *effFn, path string, args []pset, fnVal pset, siteN
 			break
 		}
 		cur = e.ext(cur, el)
+	}
+	if referent && len(elems) > 0 {
+		cur = st.load(cur)
 	}
 	r.addAll(cur)
 	return r
@@ -654,7 +664,7 @@ func (e *Eff) call(st *effFn, ci ssa.CallInstruction) bool {
 			a2 = args
 		}
 		for m := range cs.sum.Mut {
-			for a := range e.instantiate(st, m, a2, fnVal, siteName) {
+			for a := range e.instantiate(st, m, a2, fnVal, siteName, false) {
 				pos := ci.Pos()
 				if a != "U" {
 					if isPrePath(a) {
@@ -665,10 +675,10 @@ func (e *Eff) call(st *effFn, ci ssa.CallInstruction) bool {
 		}
 		// edges the callee added to pre-existing or returned objects
 		for k, h := range cs.sum.Heap {
-			locs := e.instantiate(st, k, a2, fnVal, siteName)
+			locs := e.instantiate(st, k, a2, fnVal, siteName, false)
 			vals := pset{}
 			for o := range h {
-				vals.addAll(e.instantiate(st, o, a2, fnVal, siteName))
+				vals.addAll(e.instantiate(st, o, a2, fnVal, siteName, true))
 			}
 			for l := range locs {
 				if l == "U" {
@@ -681,14 +691,14 @@ func (e *Eff) call(st *effFn, ci ssa.CallInstruction) bool {
 			if tup, ok := val.Type().(*types.Tuple); ok {
 				for i := 0; i < tup.Len() && i < len(cs.sum.Ret); i++ {
 					for o := range cs.sum.Ret[i] {
-						for a := range e.instantiate(st, o, a2, fnVal, siteName) {
+						for a := range e.instantiate(st, o, a2, fnVal, siteName, true) {
 							ch = st.rootsOf(val).add(fmt.Sprintf("%s#%d", a, i)) || ch
 						}
 					}
 				}
 			} else if len(cs.sum.Ret) > 0 && pointerLike(val.Type()) {
 				for o := range cs.sum.Ret[0] {
-					ch = st.rootsOf(val).addAll(e.instantiate(st, o, a2, fnVal, siteName)) || ch
+					ch = st.rootsOf(val).addAll(e.instantiate(st, o, a2, fnVal, siteName, true)) || ch
 				}
 			}
 		}
@@ -741,7 +751,7 @@ func (e *Eff) extCall(st *effFn, ci ssa.CallInstruction, c *ssa.Function, args [
 				if strings.HasPrefix(m, "P") {
 					continue // parameters are supplied by the external caller
 				}
-				for p := range e.instantiate(st, m, nil, args[i], "ext") {
+				for p := range e.instantiate(st, m, nil, args[i], "ext", false) {
 					ch = st.mut(p, ci.Pos()) || ch
 				}
 			}
